@@ -368,11 +368,11 @@ impl FlexScen {
         let p: Vec<&str> = s.split('/').collect();
         match p.as_slice() {
             ["bank", to, c] => Some(CosmosMsg::Bank(BankMsg::Send { to_address: to.to_string(), amount: vec![parse_coin(c)?] })),
-            ["self", "execute", id] => Some(self.wasm(&self.flex, &FlexExec::Execute { proposal_id: id.parse().ok()? })),
-            ["self", "close", id] => Some(self.wasm(&self.flex, &FlexExec::Close { proposal_id: id.parse().ok()? })),
-            ["self", "vote", id, v] => {
-                Some(self.wasm(&self.flex, &FlexExec::Vote { proposal_id: id.parse().ok()?, vote: parse_vote(v)? }))
-            }
+            // calls back into the multisig are built with the `packages/cw3` helper (`Cw3Contract`), so the helper
+            // is inside the lock-step tie: a helper that encodes another call makes the dispatch differ from the model
+            ["self", "execute", id] => cw3::Cw3Contract(self.flex.clone()).execute(id.parse().ok()?).ok(),
+            ["self", "close", id] => cw3::Cw3Contract(self.flex.clone()).close(id.parse().ok()?).ok(),
+            ["self", "vote", id, v] => cw3::Cw3Contract(self.flex.clone()).vote(id.parse().ok()?, parse_vote(v)?).ok(),
             ["group", "update", add, remove] => {
                 let add: Vec<Member> = add
                     .split('+')
@@ -1341,6 +1341,17 @@ impl FlexScen {
                 }
             };
             out.push(m);
+        }
+        // a proposal may carry the same message more than once (two equal instalments): "exactly as proposed"
+        // includes repeats, adjacent or not
+        if !out.is_empty() && rng.chance(1, 5) {
+            let i = rng.below(out.len() as u64) as usize;
+            let m = out[i].clone();
+            if rng.chance(2, 3) {
+                out.insert(i, m);
+            } else {
+                out.push(m);
+            }
         }
         if out.is_empty() {
             "-".to_string()
